@@ -74,7 +74,22 @@ def generated_formats():
     return out
 
 
-FORMATS2 = generated_formats()
+def spec_formats():
+    """conversion / presentation types: every numeric and string record field with every conversion of the
+    classic style and every presentation type of the format style (what is accepted at load time is
+    decided on sample values - it must still render a real record, whose thread id is a large integer
+    and whose time fields are floats)"""
+    out = []
+    fields = ('levelno', 'lineno', 'msecs', 'created', 'relativeCreated', 'thread', 'process', 'name', 'message')
+    for f in fields:
+        for conv in ('d', 'i', 'o', 'x', 'X', 'e', 'f', 'g', 'c', 'r', 'a', '05d', '.2f', '-6s', '+d', '.3s'):
+            out.append(('classic', '%%(%s)%s' % (f, conv)))
+        for spec in ('d', '03d', 'x', 'o', 'b', 'c', 'n', 'e', 'f', '.0f', 'g', '%', ',', 's', '>10', '^8.3', '+', '#x'):
+            out.append(('format', '{%s:%s}' % (f, spec)))
+    return out
+
+
+FORMATS2 = generated_formats() + spec_formats()
 FORMATTERS = (None, 'vf.dtsupport.PlainFormatter')
 
 
@@ -127,22 +142,30 @@ def ref_level(s):
 
 
 def ref_filehandler(std, max_size, old_files, when, interval, encoding, delay):
-    """-> 'ValueError' | class name"""
+    """-> 'ValueError' | (class name, [(constructor argument, value)]) - what the configured options mean"""
+    enc = 'utf-8' if encoding else None
+    dl = True if delay else False
+    NP = 'NOT-PASSED'
     if std:
         if max_size or old_files or when or delay or encoding:
             return 'ValueError'
-        return 'StreamHandler'
+        return ('StreamHandler', [])
     if when or max_size or old_files or interval:
         if not old_files:
             return 'ValueError'
         if when:
             if max_size:
                 return 'ValueError'
-            return 'TimedRotatingFileHandler'
+            return ('TimedRotatingFileHandler',
+                    [('path', True), ('maxBytes', NP), ('backupCount', old_files), ('when', 'D'),
+                     ('interval', interval if interval else 1), ('encoding', enc), ('delay', dl)])
         if max_size:
-            return 'RotatingFileHandler'
+            return ('RotatingFileHandler',
+                    [('path', True), ('maxBytes', max_size), ('backupCount', old_files), ('when', NP),
+                     ('interval', NP), ('encoding', enc), ('delay', dl)])
         return 'ValueError'
-    return 'FileHandler'
+    return ('FileHandler', [('path', True), ('maxBytes', NP), ('backupCount', NP), ('when', NP), ('interval', NP),
+                            ('encoding', enc), ('delay', dl)])
 
 
 class C20(Harness):
@@ -310,7 +333,13 @@ class C20(Harness):
         if name is None:
             h = fac()
             name = type(h).__name__
-        return ('ok', name)
+            return ('ok', name, [])
+        # the arguments the handler will be built with: every configured option must arrive there
+        kw = dict(fac.keywords or {})
+        args = [('path', fac.args[0] == path if fac.args else False)]
+        for nm in ('maxBytes', 'backupCount', 'when', 'interval', 'encoding', 'delay'):
+            args.append((nm, kw.get(nm, 'NOT-PASSED')))
+        return ('ok', name, args)
 
     def _format(self, unit):
         import ZConfig
@@ -330,6 +359,7 @@ class C20(Harness):
         rec = logging.LogRecord('some.logger', logging.WARNING, '/p/file.py', 7, 'message %s', ('arg',), None,
                                 func='fn')
         rec.created, rec.msecs, rec.relativeCreated = 1700000000.25, 250.0, 12345.5
+        rec.thread, rec.process = 140737353955136, 4194000     # the magnitudes CPython / Linux really produce
         rec2 = logging.makeLogRecord(dict(rec.__dict__))     # a fresh record for the reference
         try:
             out = formatter.format(rec)
@@ -542,7 +572,7 @@ class C20(Harness):
         if k == 'filehandler':
             r = ref_filehandler(bool(inp['path'] != 2), inp['max_size'], inp['old_files'], inp['when'],
                                 inp['interval'], inp['encoding'], inp['delay'])
-            return ('ValueError',) if r == 'ValueError' else ('ok', r)
+            return ('ValueError',) if r == 'ValueError' else ('ok', r[0], r[1])
         if k == 'format':
             return ('format-consistent',)
         if k == 'ops':
